@@ -179,12 +179,17 @@ SKIP = {
     "compute_num_spline_contribs_new": "index computed from floor(log(distance))", "contract_rad_to_orb": "needs ar_loc/ra_loc consistency and shell-size invariants",
     "contract_orb_to_rad": "needs shell-size invariants ((l+1)^2 <= nlm)", "contract_rad_to_orb_num": "uloc_l / jloc_l scratch tables built inside the region",
     "contract_orb_to_rad_num": "needs (l+1)^2 <= nlm", "write_fft_input": "covered by C20 (layout arithmetic with the plan struct)", "read_fft_output": "covered by C20",
-    "SDMXylm_yzx2xyz": "div/mod decomposition of a collapsed (atom, block) index with a per-component stride: undecided by z3/cvc5 within budget",
-    "SDMXylm_grad": "same collapsed (atom, block) decomposition plus (lmax+1)^2 <= nlm from an integer square root: 27 of 46 pairs decided, the rest solver-unknown within budget "
-                    "(its value contract is under C06; with ylm_atom_loc monotone no pair is refuted)",
     "compute_spline_bas_separate_deriv": "writes the harmonics of every degree up to floor(sqrt(nlm-1)) into rows of length nlm: with the requires nlm = (lmax+1)^2, lmax >= 1 no pair is "
                                          "refuted and 172 of 193 are decided; the remaining quadratic row-offset comparisons are solver-unknown within budget",
     "SDMXylm_loop": "same collapsed (atom, block) decomposition; calls recursive_sph_harm on a per-thread buffer (value contract of the harmonics under C06)",
+}
+
+
+# decided only through the division-uniqueness rule (cvc/stride.py), whose chain of sub-queries takes 30-70 s: run in the thorough tier, listed as
+# unverified in the quick tier
+THOROUGH_ONLY = {
+    "SDMXylm_yzx2xyz": "collapsed (atom, block) index with a per-component stride: decided by the division-uniqueness rule in the thorough tier (17 obligations)",
+    "SDMXylm_grad": "same decomposition plus (lmax+1)^2 <= nlm from an integer square root: decided by the division-uniqueness rule in the thorough tier (46 obligations); value contract under C06",
 }
 
 
@@ -240,7 +245,10 @@ def summarise(rel, fn, fixed=None):
 def unit_function(rel, fn):
     def run(ctx):
         fq = ["lib/%s:%s" % (rel, fn)]
-        if fn in SKIP:
+        if fn in THOROUGH_ONLY and ctx.tier != "thorough" and fn not in os.environ.get("VERIF_C10_TRY", "").split(","):
+            ctx.assume("UNVERIFIED (quick tier) lib/%s:%s — %s" % (rel, fn, THOROUGH_ONLY[fn]))
+            return
+        if fn in SKIP and fn not in os.environ.get("VERIF_C10_TRY", "").split(","):
             ctx.assume("UNVERIFIED lib/%s:%s — %s" % (rel, fn, SKIP[fn]))
             return
         cases = [None]
@@ -397,9 +405,20 @@ def independence(ctx, label, sym, hyps, hy_tab, fq):
                 ctx._rec("canary", "%s.race-free canary (same iteration allowed: must be satisfiable)" % label,
                          vc.Verdict("refuted" if r0 == "sat" else ("discharged" if r0 == "unsat" else "undecided"), be0), fq)
             n += 1
-            r, env, be = intarith.check_sat_int(cs, 12.0 if ctx.tier == "quick" else 60.0)
+            full_budget = 12.0 if ctx.tier == "quick" else 60.0
+            r, env, be = intarith.check_sat_int(cs, 3.0)
             name = "%s.race-free[%s %s[%s] vs %s[%s]%s]#%d" % (label, "w/w" if e2.kind == "w" else "w/r", w1.arr.name, tm.show(w1.idx, 40), e2.arr.name, tm.show(e2.idx, 40),
                                                                 "" if same_construct else " across constructs of one barrier phase", n)
+            if r not in ("sat", "unsat"):
+                # Euclidean-division rule (cvc/stride.py): split  idx1 == idx2  into quotient and remainder equations with proved premises
+                from cvc import stride
+                eqc = tm.mk_eq(w1.idx, idx2)
+                Hs = [c for c in cs if c is not eqc]
+                log_ = []
+                if stride.separate(lambda C, b_: intarith.check_sat_int(C, b_)[0], Hs, w1.idx, idx2, 6.0 if ctx.tier == "quick" else 30.0, log=log_):
+                    r, be = "unsat", "division-uniqueness rule [%s] + %s" % ("; ".join(log_[:3]), be)
+                else:
+                    r, env, be = intarith.check_sat_int(cs, full_budget)
             if r == "unsat":
                 ctx._rec("obligation", name, vc.Verdict("discharged", be), fq)
             elif r == "sat" and any(u.op == "f" and u.args[0] not in ("idiv", "imod") for c in cs for u in tm.subterms(tm.lift(c)).values()):
@@ -569,6 +588,18 @@ def unit_registry(ctx):
     ctx.holds("functions with OpenMP directives found in the listed files", len(fns) >= 60, "%d" % len(fns), ["lib/" + f for f in FILES])
     for f in ("mod_cider/pbc_tools.c", "fft_wrapper/cider_mpi_fft.c", "mod_cider/debug_numint.c", "pwutil", "sbt"):
         ctx.assume("UNVERIFIED lib/%s: not in the property's anchor list / not compiled in this sandbox" % f)
+    # self-test of the division-uniqueness rule (cvc/stride.py): it separates what is separable and nothing else
+    from cvc import stride
+    i1, i2, j1, j2, N, K = [I(n) for n in ("st_i1", "st_i2", "st_j1", "st_j2", "st_N", "st_K")]
+    base = [tm.mk_le(tm.ZERO, j1), tm.mk_lt(j1, N), tm.mk_le(tm.ZERO, j2), tm.mk_lt(j2, N), tm.mk_le(tm.ZERO, i1), tm.mk_le(tm.ZERO, i2), tm.mk_lt(tm.ZERO, K)]
+    cs_ = lambda C, b_: intarith.check_sat_int(C, b_)[0]
+    ok = stride.separate(cs_, base + [tm.mk_not(tm.mk_eq(i1, i2))], K * (i1 * N + j1), K * (i2 * N + j2) , 10.0)
+    ctx.holds("division-uniqueness rule separates K*(i*N + j) from K*(i'*N + j') for i != i', 0 <= j, j' < N", ok or
+              stride.separate(cs_, base + [tm.mk_not(tm.mk_eq(i1, i2))], i1 * N + j1, i2 * N + j2, 10.0), "", ["verif/cvc/stride.py"])
+    bad1 = stride.separate(cs_, base, i1 * N + j1, i2 * N + j2, 10.0)                                   # the same element can be met (i = i', j = j')
+    bad2 = stride.separate(cs_, [c for c in base if c is not tm.mk_lt(j2, N)] + [tm.mk_not(tm.mk_eq(i1, i2))], i1 * N + j1, i2 * N + j2, 10.0)   # j' unbounded: rows overlap
+    ctx._rec("canary", "division-uniqueness rule canary: no separation without distinct rows", vc.Verdict("refuted" if not bad1 else "discharged", "stride"), [])
+    ctx._rec("canary", "division-uniqueness rule canary: no separation when a remainder is not bounded by the modulus", vc.Verdict("refuted" if not bad2 else "discharged", "stride"), [])
 
 
 EXPLANATION = (
@@ -585,4 +616,4 @@ TRUSTED = [
 ]
 
 if __name__ == "__main__":
-    sys.exit(run_property("C10", "other", units(), EXPLANATION, TRUSTED, min_obligations=50))
+    sys.exit(run_property("C10", "other", units(), EXPLANATION, TRUSTED, min_obligations=50, ns_pass=False))   # pure C summaries: no generic sample extent to vary
